@@ -80,7 +80,7 @@ def enumerate_schedules(inst_line, mk_case, k, maxruns):
 def check_par(tier, pid, chk=None):
     embedded = chk is not None
     if chk is None:
-        chk = Check(pid, tier, "other")
+        chk = Check(pid, tier, "proof")
         pinned = {"C03": ["C03_par_optimal_every_schedule", "C03_par_correct", "C03_discarding_the_fringe_is_sound",
                           "C03_parallel_solver_returns_optimum", "C03_parallel_finished_run_is_optimal", "C03_holds_on_table_family"],
                   "C04": ["C04_no_deadlock", "C04_no_worker_crash", "C04_completion_only_when_idle", "C04_terminates_within_explicit_bound",
@@ -242,9 +242,10 @@ def check_par(tier, pid, chk=None):
                     "states": stats["decisions"], "transitions": stats["decisions"],
                     "explanation": "Trace validation of the Coq labelled transition system of the coordination protocol (Par.v) against the real workers under the same "
                                    "schedule (identical (worker, critical-section) sequences, results, explored / poll counts), plus the property evaluated on the "
-                                   "implementation with exhaustive enumeration as oracle. Protocol theorems (no deadlock, optimality under every schedule) are registered "
-                                   "in Props/%s.v as they are closed." % pid,
-                    "open_obligations": ["%s theorem about Par.par_run for every schedule" % pid]})
+                                   "implementation with exhaustive enumeration as oracle. Protocol theorems (no deadlock, termination bound, optimality under every schedule; "
+                                   "Props/%s.v under the diagram contracts, Props/%su.v unconditional for the clean flavours)." % (pid, pid),
+                    "open_obligations": ["cache / dominance / pooled / NoDupFringe configurations: trace validation + oracle only",
+                                         "real-thread effects below the granularity of critical sections (memory ordering, spurious wake-ups)"]})
     chk.assumptions = ["parking_lot: mutex mutual exclusion; condvar without spurious wake-ups; notify_all wakes every waiter",
                        "compilations of different workers only interact through the cache / dominance store (dashmap per-key atomicity); "
                        "the scheduler serialises whole compilations (finer interleavings of cache accesses are exercised only by the un-scheduled stress runs)"]
